@@ -70,6 +70,34 @@ def addGroup (gs : List String) (g : String) (fault : Option String) : G :=
 def removeGroup (gs : List String) (g : String) (unstopped : Bool) (fault : Option String) : G :=
   run g fault unstopped removeSteps ⟨gs, [], none⟩
 
+/-! the RPC methods `addProcessGroup` / `removeProcessGroup` around them (supervisor/rpcinterface.py): what is answered.
+    Which exception classes the method catches around the Supervisor call and which fault it answers for each, and the
+    fault for a false result, are the regenerated tables `rpcAddCaught`, `rpcAddFalse`, `rpcRemoveCaught`, `rpcRemoveFalse`. -/
+inductive Answer
+  | ok                        -- the method returns True
+  | fault (code : Int)        -- RPCError with this fault code
+  | escaped (what : String)   -- the exception is not caught by the method
+deriving DecidableEq, Repr
+
+/-- `cls`: the class (as far as the handlers distinguish: the caught class it is an instance of, or its own name) of
+    the exception raised inside the Supervisor method, if one is -/
+def answerOf (caught : List (String × Int)) (falseCode : Int) (cls : String) : Option Res → Answer
+  | some (.ret true) => .ok
+  | some (.ret false) => .fault falseCode
+  | none => .fault falseCode
+  | some (.raised w) =>
+    match caught.lookup cls with
+    | some c => .fault c
+    | none => .escaped w
+
+/-- `rpcinterface.addProcessGroup(g)` for a configured name -/
+def rpcAdd (gs : List String) (g : String) (fault : Option String) (cls : String) : G × Answer :=
+  (addGroup gs g fault, answerOf rpcAddCaught rpcAddFalse cls (addGroup gs g fault).res)
+
+/-- `rpcinterface.removeProcessGroup(g)` for a name in the table -/
+def rpcRemove (gs : List String) (g : String) (unstopped : Bool) (fault : Option String) (cls : String) : G × Answer :=
+  (removeGroup gs g unstopped fault, answerOf rpcRemoveCaught rpcRemoveFalse cls (removeGroup gs g unstopped fault).res)
+
 inductive Op
   | add (g : String) (fault : Option String)
   | remove (g : String) (unstopped : Bool) (fault : Option String)
@@ -199,19 +227,29 @@ def commaOr (xs : List String) : String := if xs.isEmpty then "-" else ",".inter
 
 def faultOf (s : String) : Option String := if s = "-" then none else some s
 
-/-- `case groups`: ops `add <g> <fault|->` and `remove <g> <unstopped 0|1> <fault|->`, from an empty table -/
+def showAnswer : Answer → String
+  | .ok => "true"
+  | .fault c => s!"fault:{c}"
+  | .escaped w => "raised:" ++ w
+
+/-- `case groups`: ops `add <g> <fault|->`, `remove <g> <unstopped 0|1> <fault|->` (the Supervisor methods) and
+    `rpcadd <g> <fault|-> <exception class|->`, `rpcremove <g> <0|1> <fault|-> <exception class|->` (the RPC methods),
+    from an empty table -/
 def runGroups (_cfg : List String) (ops : List String) : List String :=
   let rec go (gs : List String) : List String → List String
     | [] => []
     | l :: r =>
-      let x : Option G := match words l with
-        | ["add", g, f] => some (addGroup gs g (faultOf f))
-        | ["remove", g, "0", f] => some (removeGroup gs g false (faultOf f))
-        | ["remove", g, "1", f] => some (removeGroup gs g true (faultOf f))
+      let x : Option (G × String) := match words l with
+        | ["add", g, f] => some (addGroup gs g (faultOf f), showRes (addGroup gs g (faultOf f)).res)
+        | ["remove", g, "0", f] => some (removeGroup gs g false (faultOf f), showRes (removeGroup gs g false (faultOf f)).res)
+        | ["remove", g, "1", f] => some (removeGroup gs g true (faultOf f), showRes (removeGroup gs g true (faultOf f)).res)
+        | ["rpcadd", g, f, c] => some ((rpcAdd gs g (faultOf f) c).1, showAnswer (rpcAdd gs g (faultOf f) c).2)
+        | ["rpcremove", g, "0", f, c] => some ((rpcRemove gs g false (faultOf f) c).1, showAnswer (rpcRemove gs g false (faultOf f) c).2)
+        | ["rpcremove", g, "1", f, c] => some ((rpcRemove gs g true (faultOf f) c).1, showAnswer (rpcRemove gs g true (faultOf f) c).2)
         | _ => none
       match x with
       | none => "bad-op" :: go gs r
-      | some x => s!"res={showRes x.res} | notes={commaOr (x.notes.map showNote)} | groups={commaOr x.groups}" :: go x.groups r
+      | some (x, res) => s!"res={res} | notes={commaOr (x.notes.map showNote)} | groups={commaOr x.groups}" :: go x.groups r
   go [] ops
 
 def showFNote : FNote → String
